@@ -1087,7 +1087,7 @@ class Worker:
                         temps.extend([float(v), float(np.nextafter(v, -np.inf)), float(np.nextafter(v, np.inf))])
         except Exception:  # noqa: BLE001
             pass
-        tz = str(getattr(slot.obj, "baseline_timezone", None) or "UTC")
+        tz = (slot.base_recipe or {}).get("tz") or str(getattr(slot.obj, "baseline_timezone", None) or "UTC")
         recipe = {"fam": P.FAMILIES[slot.fam][1], "role": "reporting", "span": "grid", "tz": tz, "obs": "present",
                   "temps": [float(t) for t in temps], "mid": (slot.base_recipe or {}).get("mid", 0)}
         dslot = a.get("d", 5)
@@ -1159,6 +1159,10 @@ class Worker:
             pb = B.loc[common, "predicted"].to_numpy(dtype="float64")
             both = np.isfinite(pa) & np.isfinite(pb)
             out["n_both"] = int(both.sum())
+            # families whose prediction does not need usage at all: a timestamp predicted in one set must be predicted
+            # in the other as well
+            if slot.fam in ("hourly", "caltrack"):
+                out["n_missing"] = int((np.isfinite(pa) != np.isfinite(pb)).sum())
             neq = both & (pa != pb)
             out["n_differ"] = int(neq.sum())
             out["max_abs_diff"] = float(np.max(np.abs(pa[neq] - pb[neq]))) if neq.any() else 0.0
